@@ -170,9 +170,11 @@ pub fn hcobs_len(allow_large: bool) -> BoxedStrategy<u32> {
         prop_oneof![
             6 => 0u32..=8,
             5 => 244u32..=260,
+            2 => prop_oneof![Just(250u32), Just(251u32), Just(252u32), Just(253u32)],
             3 => 0u32..=600,
             2 => 0u32..=4096,
             2 => 63_990u32..=64_030,
+            2 => prop_oneof![Just(64_006u32), Just(64_007u32), Just(64_008u32), Just(64_009u32)],
             2 => 64_254u32..=64_266,
             1 => 0u32..=140_000,
         ]
@@ -181,6 +183,7 @@ pub fn hcobs_len(allow_large: bool) -> BoxedStrategy<u32> {
         prop_oneof![
             6 => 0u32..=8,
             5 => 244u32..=260,
+            2 => prop_oneof![Just(250u32), Just(251u32), Just(252u32), Just(253u32)],
             3 => 0u32..=600,
             1 => 0u32..=4096,
         ]
